@@ -409,6 +409,8 @@ def tr_interpret(node, meta=None, model='default', mdl=None):
         return t
     out['alns'] = [[ab.triple(k), str(v)[1:]] for k, v in a1.items()]
     out['ralns'] = [[ab.triple(k), str(v)[1:]] for k, v in a2.items()]
+    # how every reported marker reads its own text: <<text, prefix, indices as written numbers>>
+    out['parts'] = [[str(v)[1:], v.prefix or '', [str(i) for i in v.indices]] for v in list(a1.values()) + list(a2.values())]
     t['out'] = out
     return t
 
@@ -1087,11 +1089,14 @@ def tr_cli(plan, inputs, model, stdin=False, subproc=False, wellformed=True, iso
     return t
 
 
-def tr_clicheck(inputs, model='amr', stdin=False, subproc=False):
-    """inputs: list of texts.  --check over all of them; what is wrong with each graph comes from Model.errors."""
+def tr_clicheck(inputs, model='amr', stdin=False, subproc=False, quiet=False):
+    """inputs: list of texts.  --check over all of them; what is wrong with each graph comes from Model.errors.
+    quiet: with --quiet nothing is written, the exit status is all there is (a real subprocess: the option closes stdout)."""
     m = _cli_model(model)
     args = {'default': [], 'amr': ['--amr'], 'noop': ['--noop'], 'file': ['--model', '@MODELFILE@']}[model] + ['--check', '--indent=no']
-    t = {'kind': 'check', 'model': model, 'args': args, 'inputs': [], 'outs': []}
+    if quiet:
+        args, subproc = args + ['--quiet'], True
+    t = {'kind': 'check', 'model': model, 'args': args, 'inputs': [], 'outs': [], 'quiet': bool(quiet)}
     for text in inputs:
         per = []
         for g in penman.PENMANCodec(model=m).iterdecode(text):
@@ -1165,6 +1170,7 @@ def tr_stream(text, model='default'):
     outs = [
         _outcome('loads(str)', lambda: penman.loads(text, model=m)),
         _outcome('iterdecode(str)', lambda: codec.iterdecode(text)),
+        _outcome('penman.iterdecode(str)', lambda: penman.iterdecode(text, model=m)),
         _outcome('iterdecode(lines)', lambda: codec.iterdecode(split_lines(text, False))),
         _outcome('iterdecode(lines with terminators)', lambda: codec.iterdecode(split_lines(text, True))),
         _outcome('load(StringIO)', lambda: penman.load(io.StringIO(text, newline=None), model=m)),
@@ -1172,6 +1178,41 @@ def tr_stream(text, model='default'):
         _outcome('iterparse+interpret', lambda: (layout.interpret(t, m) for t in penman.iterparse(text))),
     ]
     return {'kind': 'stream', 'text': text, 'model': model, 'outs': outs}
+
+
+def tr_bigstream(texts, sep, tail='', model='default'):
+    """A long stream given as its per-graph texts (each short: comment lines and one graph) joined by *sep*: long enough to
+    cross the block boundaries of buffered file reading.  The first container is logged in full (TLC compares it with the
+    reference reading, composed text by text); of every container the sequence of per-graph digests of the same projection
+    is logged, which TLC compares across containers."""
+    import hashlib
+    m = get_model(model)
+    codec = penman.PENMANCodec(model=m)
+    text = sep.join(texts) + tail
+    d = _clidir()
+    path = os.path.join(d, 'bigstream.txt')
+    with open(path, 'w', encoding='utf-8', newline='') as f:
+        f.write(text)
+
+    def viafh():
+        with open(path, encoding='utf-8') as fh:
+            return penman.load(fh, model=m)
+    conts = [
+        ('loads(str)', lambda: penman.loads(text, model=m)),
+        ('iterdecode(lines with terminators)', lambda: codec.iterdecode(split_lines(text, True))),
+        ('load(StringIO)', lambda: penman.load(io.StringIO(text, newline=None), model=m)),
+        ('load(path)', lambda: penman.load(path, model=m, encoding='utf-8')),
+        ('load(open file)', viafh),
+        ('penman.iterdecode(str)', lambda: penman.iterdecode(text, model=m)),
+    ]
+    t = {'kind': 'bigstream', 'texts': list(texts), 'sep': sep, 'model': model, 'nchars': len(text), 'outs': []}
+    for name, f in conts:
+        o = _outcome(name, f)
+        if not t['outs']:
+            t['first'] = {'ok': o['ok'], 'exc': o['exc'], 'graphs': o['graphs']}
+        t['outs'].append({'c': name, 'ok': o['ok'], 'exc': o['exc'],
+                          'digests': [hashlib.sha1(_json.dumps(g, sort_keys=True).encode()).hexdigest()[:12] for g in o['graphs']]})
+    return t
 
 
 def tr_dumps(texts, model='default', indent=-1, compact=False):
